@@ -90,10 +90,16 @@ func replay(f lib.Flags) int {
 		return 2
 	}
 	m := lib.NewMonitor("replay", "")
+	if c.Inner != nil {
+		c.Inner.Nested = true
+	}
 	out := c.runCode()
 	c.monitor(m, out)
+	if c.Inner != nil && out.Inner != nil {
+		c.Inner.monitor(m, *out.Inner)
+	}
 	fmt.Printf("replay %s site=%s W=%s more=%s all=%v M=%s R=%s\n  stored=%s\n  written=%s\n  -> %s\n", c.Root, c.Site,
-		c.W.Enc(), c.More.Enc(), c.All, c.M.Enc(), c.R.Enc(), c.DstText, c.SrcText, out.text())
+		c.W.Enc(), c.More.Enc(), c.All, c.M.Enc(), c.R.Enc(), c.DstText, c.SrcText, out.fullText())
 	if len(m.Violations) > 0 {
 		for _, v := range m.Violations {
 			fmt.Printf("STILL FAILS %s: %s (expected %s, observed %s)\n", v.Signature, v.What, v.Expected, v.Observed)
